@@ -18,7 +18,7 @@ echo "--- demo with the change (must fail)"
 (cd $root/repo && go test -vet=off -count=1 -run "${DEMO_RUN:-.}" ./$pkg/ 2>&1 | tail -6)
 rm -f $root/repo/$pkg/zz_seeded_demo_test.go
 echo "--- project suite with the change (guard off)"
-VERIF_REPO=$root/repo /verif/tools/baseline_off.sh $root/suite.json 2>&1 | tail -4
+VERIF_REPO=$root/repo /verif/tools/baseline_off.sh $root/suite.json 2>&1 | grep "baseline stable_pass\|NOT PASSING" | head -6
 git -C /repo worktree remove --force $root/repo; rm -rf $root
 echo "--- our checks"
 /verif/tools/mutate.sh $id$ab $src/patch.diff $id "$@"
